@@ -55,5 +55,43 @@ def clone (r : MVRegister) : MVRegister := r
 
 def fromRawState (es : List MvEntry) (clk : AMap Nat) : MVRegister := ⟨es, clk, false⟩
 
+/-- representation invariant: clock is a map, it covers every dot held, no dot is held twice -/
+structure WF (r : MVRegister) : Prop where
+  clock_sorted : r.clock.Sorted
+  dots_le : ∀ e ∈ r.entries, e.dot.counter ≤ r.clock.getD e.dot.nodeID 0
+  nodup : r.entries.Nodup
+  dotfun : ∀ a ∈ r.entries, ∀ b ∈ r.entries, a.dot = b.dot → a = b
+
+/-- a dot names ONE write: two registers never hold different values under the same dot -/
+def Compat (a b : MVRegister) : Prop := ∀ e ∈ a.entries, ∀ f ∈ b.entries, e.dot = f.dot → e = f
+
+/-- A system of replicas.  `replica n` is the register of the node whose id is `n` — the only place
+    where `Set(n, ·)` is ever called (the contract of the `nodeID` parameter); `pool` holds every other
+    register value in existence: snapshots, messages in flight, deltas, results of arbitrary merges. -/
+structure World where
+  replica : Nat → MVRegister
+  pool : List MVRegister
+
+def World.has (w : World) (x : MVRegister) : Prop := x ∈ w.pool ∨ ∃ n, x = w.replica n
+
+def World.setReplica (w : World) (n : Nat) (x : MVRegister) : World :=
+  { w with replica := fun k => if k = n then x else w.replica k }
+
+/-- all executions: local writes, delivery of ANY existing value to any replica (any order, any
+    duplication), snapshots / deltas / clones, merges of any two existing values in any grouping -/
+inductive World.Reachable : World → Prop
+  | init : World.Reachable ⟨fun _ => new, []⟩
+  | set {w} (n v : Nat) : World.Reachable w → World.Reachable (w.setReplica n ((w.replica n).set n v))
+  | deliver {w} (n : Nat) (m : MVRegister) : World.Reachable w → w.has m →
+      World.Reachable (w.setReplica n ((w.replica n).merge m))
+  | resetDelta {w} (n : Nat) : World.Reachable w → World.Reachable (w.setReplica n (w.replica n).resetDelta)
+  | snapshot {w} (x : MVRegister) : World.Reachable w → w.has x → World.Reachable { w with pool := x.clone :: w.pool }
+  | delta {w} (x d : MVRegister) : World.Reachable w → w.has x → x.delta? = some d →
+      World.Reachable { w with pool := d :: w.pool }
+  | mergeAny {w} (x y : MVRegister) : World.Reachable w → w.has x → w.has y →
+      World.Reachable { w with pool := x.merge y :: w.pool }
+  | resetAny {w} (x : MVRegister) : World.Reachable w → w.has x →
+      World.Reachable { w with pool := x.resetDelta :: w.pool }
+
 end MVRegister
 end GoaktVerif.Model.Crdt
